@@ -81,7 +81,7 @@ def build(prop_id: str, log: Callable[[str], None]) -> Dict[str, Any]:
             res["tables"] = info.get("tables", {})
             res["extract_errors"] = info.get("errors", [])
         except Exception as e:  # translator could not read the tree
-            res["extract_errors"] = [f"{type(e).__name__}: {e}"]
+            res["extract_errors"] = [f"extract.main: {type(e).__name__}: {e}"]
             res["drift"] = []
             log(f"NOTE translator failed: {e}")
         from harness import gen_main
@@ -90,8 +90,22 @@ def build(prop_id: str, log: Callable[[str], None]) -> Dict[str, Any]:
         rc, out, err = _run(["lake", "build", "clemdrv"], cwd=LEAN)
         res["output"] += out + err
         if rc != 0:
-            res["driver_ok"] = False
-            res["ok"] = False
+            # The full driver links every package's models.  If it no longer builds, build a driver
+            # with only the modules this property depends on (DRIVER_MODULES): a break in a file the
+            # property does not depend on must not raise an alarm for it.
+            global DRIVER
+            fb = f"clemdrv_{prop_id.lower()}"
+            rc2, out2, err2 = (1, "", "")
+            if (LEAN / "Driver" / f"Main{prop_id.upper()}.lean").exists():
+                rc2, out2, err2 = _run(["lake", "build", fb], cwd=LEAN)
+            if rc2 == 0:
+                DRIVER = LEAN / ".lake" / "build" / "bin" / fb
+                res["fallback_driver"] = fb
+                log(f"NOTE full driver does not build (a package this property does not depend on is broken); using {fb}")
+            else:
+                res["output"] += out2 + err2
+                res["driver_ok"] = False
+                res["ok"] = False
         mod = f"Clem.Props.{prop_id}"
         rc, out, err = _run(["lake", "build", mod, "Clem.Audit"], cwd=LEAN)
         res["output"] += out + err
@@ -568,6 +582,11 @@ def main(argv: List[str]) -> int:
             return 2
     finally:
         ctx.cleanup()
+        if DRIVER.name != "clemdrv":
+            try:
+                DRIVER.unlink()
+            except OSError:
+                pass
 
 
 def _main(ctx: Ctx, args) -> int:
@@ -591,6 +610,14 @@ def _main(ctx: Ctx, args) -> int:
     for d in b.get("drift", []):
         if prop in d.get("properties", [prop]):
             ctx.note(f"model-drift {d['what']} (source of a hand-modelled function changed; correspondence decides)")
+    # a table generator that can no longer read the source breaks the tie for the properties whose
+    # module lists it under TABLES (harness/tables/<name>.py); for the others it is only a note
+    for e in b.get("extract_errors", []):
+        tname = e.split(".", 1)[0]
+        if tname in getattr(mod, "TABLES", []) or tname == "extract":
+            ctx.proof_break(f"translator could not regenerate table from the current source: {e}")
+        else:
+            ctx.note(f"translator error in a table this property does not use: {e[:200]}")
     if not b["driver_ok"]:
         # the models themselves no longer build (a generated table broke a model file)
         ctx.proof_break("lake build clemdrv failed:\n" + b["output"][-3000:])
